@@ -38,6 +38,9 @@ ASSUMPTIONS = [
 EXC = [ValueError, IndexError, AttributeError, NotImplementedError, RecursionError, KeyError, TypeError]
 
 
+MAXLEN = [2]
+
+
 class Boom(Exception):
     pass
 
@@ -126,10 +129,12 @@ def gate(arm, kind, sevs, thr, boom, exc, x, y):
 def make_gate_lemma(arm, kind):
     def lem(sevs: List[int], thr: int, boom: bool, exc: int, x: int, y: int) -> bool:
         """
-        pre: len(sevs) <= 2 and all(1 <= s <= 5 for s in sevs)
+        pre: len(sevs) <= 3 and all(1 <= s <= 5 for s in sevs)
         pre: 0 <= thr < 6 and 0 <= exc < 7 and 0 <= x < 256 and 0 <= y < 256
         post: _
         """
+        if len(sevs) > MAXLEN[0]:
+            return True
         exc = pin(exc, 0, len(EXC) - 1)
         if arm != 0:
             if thr != 0:
@@ -236,6 +241,7 @@ def _real_gate(i, arm, kind):
 
 def lemmas(tier):
     q = tier == "quick"
+    MAXLEN[0] = 2 if q else 3
     L = []
     for arm in (0, 1, 2):
         for kind in (0, 1, 2):
@@ -244,11 +250,11 @@ def lemmas(tier):
                            dry=[{"sevs": [], "thr": 0, "boom": False, "exc": 0, "x": 1, "y": 2},
                                 {"sevs": [3], "thr": 0, "boom": False, "exc": 0, "x": 1, "y": 2},
                                 {"sevs": [], "thr": 0, "boom": True, "exc": 2, "x": 1, "y": 2}],
-                           doc={"S": ["sevs: finding severities (len<=2)", "thr: accepted severity (all six; hook/context: LIKELY_SAFE)", "boom: analysis raises",
+                           doc={"S": ["sevs: finding severities (len<=%d)" % MAXLEN[0], "thr: accepted severity (all six; hook/context: LIKELY_SAFE)", "boom: analysis raises",
                                       "x: payload byte analysed", "y: payload byte the adversary rewrites the stream to"],
                                 "F": ["exception class (7)", "arming=%s" % ["loader.load", "run_hook+pickle.load", "context manager+pickle.load"][arm],
                                       "stream=%s" % ["seekable", "bytes", "non-seekable"][kind]],
-                                "bound": "<=2 findings; one-opcode payload K<x>."}))
+                                "bound": "<=%d findings; one-opcode payload K<x>." % MAXLEN[0]}))
     L.append(Lemma("real_gate", real_gate, timeout=200, dry=[{"i": 4, "arm": 0, "kind": 1}, {"i": 11, "arm": 2, "kind": 0}],
                    doc={"F": ["%d concrete pickles (benign / flagged sink globals through every call-making opcode / undecompilable) x 3 armings x 3 stream kinds" % len(REAL)],
                         "bound": "real rule set, real unpickler, inert sink module; audit hook on pickle.find_class"}))
